@@ -32,6 +32,20 @@ theorem finalize_default_last {ρ : Type} (s : Sources ρ) (iss : ρ)
     (h4 : app s.custom iss = "") (h5 : app s.locale iss = "") : finalize s iss = s.dflt iss := by
   simp [finalize_priority, firstNonEmpty, h1, h2, h3, h4, h5]
 
+/-- a source whose map answers "" for the issue is as good as not configured (shown for the
+    per-parse map; the other sources are symmetric by `finalize_priority`) -/
+theorem finalize_silent_parse {ρ : Type} (s : Sources ρ) (iss : ρ) (h : app s.parse iss = "") :
+    finalize s iss = finalize { s with parse := none } iss := by
+  have hn : app (none : Option (ErrMap ρ)) iss = "" := rfl
+  rw [finalize_priority, finalize_priority]
+  simp only [h, hn]
+
+theorem finalize_silent_custom {ρ : Type} (s : Sources ρ) (iss : ρ) (h : app s.custom iss = "") :
+    finalize s iss = finalize { s with custom := none } iss := by
+  have hn : app (none : Option (ErrMap ρ)) iss = "" := rfl
+  rw [finalize_priority, finalize_priority]
+  simp only [h, hn]
+
 example : finalize (ρ := Nat)
     { rawMsg := "", inst := none, parse := some (fun n => if n = 0 then "" else "per-parse"),
       custom := some (fun _ => "custom"), locale := some (fun _ => "locale"), dflt := fun _ => "Invalid input" } 0
@@ -127,7 +141,7 @@ theorem gap_breaks_priority :
 /-- witness (a snapshot of the row the extraction produced on the pinned tree, kept as a constant
     so that a repaired library does not break the build): `Enum("a","b").Parse("zz")` presets its
     message, so no configured source is consulted — the full statement fails there -/
-def enumSiteSnapshot : Site := ⟨"value-enum", "top", "invalid_value", .ofString "pgl", .ofString "", "d"⟩
+def enumSiteSnapshot : Site := ⟨"value-enum", "top", "invalid_value", .ofString "pgl", .ofString "", "d", .ofString ""⟩
 
 theorem c18_wired_full_false :
     enumSiteSnapshot.applicable.subset enumSiteSnapshot.passes = false ∧
@@ -137,7 +151,7 @@ theorem c18_wired_full_false :
 /-- with nothing configured every site shows the built-in text (never an empty message) -/
 theorem c18_base_nonempty : ∀ s ∈ Gozod.Gen.sites, s.base = "d" := by decide +kernel
 
-example : (⟨"type-string", "slice-element", "invalid_type", .ofString "spgl", .ofString "spgl", "d"⟩ : Site)
+example : (⟨"type-string", "slice-element", "invalid_type", .ofString "spgl", .ofString "spgl", "d", .ofString "spgl"⟩ : Site)
     ∈ Gozod.Gen.sites := by decide +kernel
 
 /-! ## Locales -/
